@@ -64,4 +64,10 @@ CLAIMS = {
         note="The finite case space (5 sites x forms x placements x 7^4 settings x CLI x relation x b-uses) is sampled, not enumerated; normal form by harness/hapcfg; reads of a foreign secret are observed through the PEM file the facade writes when it reads one.",
         technique="property-based testing (rapid): metamorphic relation between two worlds differing only in foreign-namespace objects",
     ),
+    "C10": dict(
+        text="Generated Gateway API worlds are synced by the real controller; an independent evaluation of the admission rules (class, parentRef group/kind/namespace/sectionName, allowedRoutes kinds and namespaces Same/All/Selector) gives the expected host/path -> backend table, per-backend servers with zero/non-zero weight and TCP ports, which must equal what the written maps, backend sections and TCP frontends say - in both directions.",
+        design_ref="DESIGN.md section 3, C10",
+        note="Reference written from the Gateway API rules and the documented limitations (listener hostname overrides, only Gateway parents); only http requests are routed; v1beta1/v1alpha2 HTTPRoutes share the converter code and are not generated.",
+        technique="property-based testing (rapid): differential against an independent reference evaluation of Gateway API admission",
+    ),
 }
